@@ -12,14 +12,14 @@ RUN = 'BacktestTradingSession.run'
 
 
 def check(ctx):
-    s1_loop_table(ctx)
-    c02.mark_loop(ctx, 'C14.S1')
-    s2_who_may_trade(ctx)
-    c07.exch_at_clock_instants(ctx, 'C14.S3')
-    s4_schedule(ctx)
-    s5_outputs(ctx)
+    ctx.sub(s1_loop_table)
+    ctx.sub(c02.mark_loop, 'C14.S1')
+    ctx.sub(s2_who_may_trade)
+    ctx.sub(c07.exch_at_clock_instants, 'C14.S3')
+    ctx.sub(s4_schedule)
+    ctx.sub(s5_outputs)
     from . import c12
-    c12.clock_range_rule(ctx, 'C14.S5')
+    ctx.sub(c12.clock_range_rule, 'C14.S5')
 
 
 def s1_loop_table(ctx):
